@@ -969,6 +969,28 @@ def sums(ctx):
                 ok = rec is not None and rec.result is not None and c == ('uf', 'unwrap', ('uf', 'unwrap', rec.result))
                 ctx.check(ok, R, fn + '|term', 'each locomotive contributes the value of its checking getter mass()',
                           'contribution is %s' % show(c, ca.names)[:200], ctx.where(cb))
+    # ------------------------------------------------ a consist of locomotives with and without a known mass has no defined mass: error
+    fn = '<Consist as Mass>::derived_mass'
+    b = prog.by_id.get(fn)
+    an = eng.analysis(b) if b is not None else None
+    if an is not None and an.exit_state is not None:
+        r = an.ret()
+        tf = [x for x in walk(r[1] if r[0] == 'gamma' else r) if x[0] == 'uf' and x[1] == 'iter.try_fold']
+        clos = [y for x in tf[:1] for y in x[2:] if isinstance(y, tuple) and y and y[0] == 'closure']
+        cb = eng.closure_body(clos[0][1]) if clos else None
+        key = fn + '|mixed'
+        if not (r[0] == 'gamma' and cb is not None and len(cb.params) >= 3):
+            ctx.unproved(R, key, 'the None / Some decision is not a checked fold over the locomotives: %s' % show(r[1] if r[0] == 'gamma' else r, an.names)[:160], ctx.where(b))
+        else:
+            eng.all_paths.add(cb.fid); eng.ana.pop(cb.fid, None); eng.summ.pop(cb.fid, None)
+            ca = eng.analysis(cb)
+            acc = ('pre', (('val', cb.params[1][0]),))
+            v = ca.ret() if ca.exit_state is not None else None
+            good = v is not None and v[0] == 'gamma' and v[1][0] == 'eq' and acc in v[1][1:] and \
+                any(z != acc and 'is_some' in repr(z) and any(y[0] == 'pre' and y[1][0] in (('val', cb.params[2][0]), ('obj', cb.params[2][0])) for y in walk(z)) for z in v[1][1:]) and \
+                v[2] == ('ok', acc) and v[3][0] != 'ok'
+            ctx.check(good, R, key, 'the fold keeps its verdict only while every locomotive agrees with the first (all masses known or all unknown); a mixed consist is an error',
+                      'the fold closure returns %s' % (show(v, ca.names)[:200] if v else None), ctx.where(cb))
     # ------------------------------------------------ locomotive mass = Σ of the parts its powertrain type has + baseline + ballast
     fn = 'Locomotive::derived_mass'
     b = ctx.anchor(R, fn)
